@@ -89,7 +89,13 @@ func (c *Client) DiscoverVersions(versions []ProtocolVersion) (serverVersions []
 		return
 	}
 
-	serverVersions = resp.(DiscoverVersionsResponse).ProtocolVersions
+	response, ok := resp.(DiscoverVersionsResponse)
+	if !ok {
+		err = errors.Errorf("unexpected response payload: %T", resp)
+		return
+	}
+
+	serverVersions = response.ProtocolVersions
 	return
 }
 
